@@ -63,6 +63,9 @@ func (s *shared) cliLevel(cases []cliCase) int {
 			}
 		}
 		args := []string{"-c", cfg}
+		if i%3 == 1 {
+			args = append(args, "--quiet") // flags that only concern what is printed leave the exit status alone
+		}
 		switch c.Form {
 		case "run":
 			args = append(args, "run")
